@@ -380,13 +380,14 @@ def run(ctx):
     packs = pack_keys(ctx.thorough)
     upacks = G.packs(ctx.thorough, ctx.seed)
     # the big symbol packs first (longest compile)
-    # shipped equations: the kernel rotates with the seed (thorough: three
-    # kernels, one of them with libm calls)
+    # shipped equations: the kernels rotate with the seed (quick two,
+    # thorough three, so one of them has libm calls)
     if ctx.thorough:
         kns = [SHIPPED_KERNELS[(ctx.seed + i) % len(SHIPPED_KERNELS)]
                for i in (0, 1, 2)]
     else:
-        kns = [SHIPPED_KERNELS[ctx.seed % len(SHIPPED_KERNELS)]]
+        kns = [SHIPPED_KERNELS[(ctx.seed + i) % len(SHIPPED_KERNELS)]
+               for i in (0, 1)]
     packs = [(p, kn) for kn in kns for p in packs]
     jobs = [('user', u) for u in upacks] + [('shipped', p) for p in packs]
     allres = map_jobs(_any_job, jobs, ctx.ncpu, job_timeout=3000)
